@@ -18,6 +18,8 @@ FIXED = [
  ("C01", "in attribute values as character references", "TAB / LF / CR in an attribute value were serialized raw and came back as spaces (attribute-value normalization)"),
  ("C01", "CR in text as a character reference", "CR in a text node was serialized raw and came back as LF (line-end normalization)"),
  ("C07", "reverse_children walks", "reverse_children(n) never terminated for a node with two or more ordinary children (indextree Children::next_back never advances); it yields the last child for ever"),
+ ("C09", "prefix_for_namespace skips shadowed", "prefix_for_namespace returned None as soon as it met a prefix that a nearer declaration shadows, although another prefix (or the built-in xml prefix) was bound to the namespace further up"),
+ ("C09", "qualified name of an attribute node never uses the empty prefix", "node_name_ref / name_ref / full_name on an attribute node whose namespace is only bound as the default namespace reported the empty prefix (which for an attribute means no namespace)"),
  ("C11", "MutableNodeMap::is_empty returned", "MutableNodeMap::is_empty (attributes_mut / namespaces_mut views) was inverted: true for a non-empty map, false for an empty one"),
  ("C13", "shallow_equal_ignore_attributes counts", "shallow_equal_ignore_attributes with a name repeated in the ignore list that b carries: the name was subtracted twice (usize underflow panic in dev, wrong answer in release)"),
 ]
